@@ -12,45 +12,70 @@ class Op:
         self.lines = []; self.prev = None; self.tgt = None; self.draws = 0; self.viol = []; self.asserts = []
         self.act = None; self.live = None
 
+class Stream:
+    """one pass over a log without holding it in memory: .header is known at once, .ops() yields operations as they complete,
+    .trailer and .stray are final once ops() is exhausted"""
+    def __init__(self, path_or_lines):
+        self.it = open(path_or_lines) if isinstance(path_or_lines, str) else iter(path_or_lines)
+        self.header = None; self.trailer = None; self.stray = []; self.lineno = 0; self.pending = None
+        # the header is the first line
+        for line in self.it:
+            self.lineno += 1
+            if not line or line[0] == '\n': continue
+            if line[0] == 'H' and line[-1] == '\n': self.header = line.split()[1:]
+            else: self.pending = line
+            break
+    def ops(self):
+        cur = None
+        def lines():
+            if self.pending is not None:
+                l = self.pending; self.pending = None; yield l
+            for l in self.it:
+                self.lineno += 1; yield l
+        for line in lines():
+            lineno = self.lineno
+            if not line or line[0] == '\n': continue
+            t = line[0]
+            if line[-1] != '\n': self.stray.append(['truncated-line', lineno]); continue
+            parts = line.split()
+            if t == 'O':
+                if cur is not None: yield cur
+                cur = Op(); cur.lineno = lineno
+                cur.inst, cur.step, cur.op, cur.a, cur.b = int(parts[1]), int(parts[2]), int(parts[3]), int(parts[4]), int(parts[5])
+            elif t == 'E':
+                if cur is not None: yield cur
+                cur = None
+            elif t == 'H':
+                self.header = parts[1:]
+            elif t == 'Z':
+                self.trailer = [int(x) for x in parts[1:]]
+            elif t == 'V':
+                (cur.viol if cur is not None else self.stray).append(parts[1:])
+            elif t == 'B':
+                (cur.asserts if cur is not None else self.stray).append(('assert', parts[1], int(parts[2])))
+            elif cur is None:
+                self.stray.append(['unparsed'] + parts)
+            elif t == 'S':
+                cur.live = parts[1] == '1'; cur.act, cur.res, cur.sub, cur.pe, cur.px, cur.pc = parts[2:8]
+            elif t == 'P':
+                v = [int(x) for x in parts[2:]]
+                cur.prev = [tuple(v[i:i + 4]) for i in range(0, len(v), 4)]   # (id, kind, dest, origin)
+            elif t == 'T':
+                v = [int(x) for x in parts[1:]]
+                cur.tgt = {v[i]: (v[i + 1], v[i + 2]) for i in range(0, len(v), 3)}  # state -> (index in prev, id)
+            elif t == 'D':
+                cur.draws = int(parts[1])
+            elif t == 'N':
+                cur.lines.append((t, parts[1:]))
+            elif t == 'p' or t == 'b':
+                cur.lines.append((t, parts[1:]))
+            else:
+                cur.lines.append((t, [int(x) for x in parts[1:]]))
+        if cur is not None: yield cur      # cut short: the process died inside this operation
+        try: self.it.close()
+        except Exception: pass
+
 def parse(path_or_lines):
-    """returns (header, ops, trailer, stray_violations)"""
-    header = None; trailer = None; ops = []; cur = None; stray = []
-    it = open(path_or_lines) if isinstance(path_or_lines, str) else path_or_lines
-    for lineno, line in enumerate(it, 1):
-        if not line or line[0] == '\n': continue
-        t = line[0]
-        if line[-1] != '\n': stray.append(['truncated-line', lineno]); continue
-        parts = line.split()
-        if t == 'O':
-            cur = Op(); cur.lineno = lineno
-            cur.inst, cur.step, cur.op, cur.a, cur.b = int(parts[1]), int(parts[2]), int(parts[3]), int(parts[4]), int(parts[5])
-            ops.append(cur)
-        elif t == 'E':
-            cur = None
-        elif t == 'H':
-            header = parts[1:]
-        elif t == 'Z':
-            trailer = [int(x) for x in parts[1:]]
-        elif t == 'V':
-            (cur.viol if cur is not None else stray).append(parts[1:])
-        elif t == 'B':
-            (cur.asserts if cur is not None else stray).append(('assert', parts[1], int(parts[2])))
-        elif cur is None:
-            stray.append(['unparsed'] + parts)
-        elif t == 'S':
-            cur.live = parts[1] == '1'; cur.act, cur.res, cur.sub, cur.pe, cur.px, cur.pc = parts[2:8]
-        elif t == 'P':
-            v = [int(x) for x in parts[2:]]
-            cur.prev = [tuple(v[i:i + 4]) for i in range(0, len(v), 4)]   # (id, kind, dest, origin)
-        elif t == 'T':
-            v = [int(x) for x in parts[1:]]
-            cur.tgt = {v[i]: (v[i + 1], v[i + 2]) for i in range(0, len(v), 3)}  # state -> (index in prev, id)
-        elif t == 'D':
-            cur.draws = int(parts[1])
-        elif t == 'N':
-            cur.lines.append((t, parts[1:]))
-        elif t == 'p' or t == 'b':
-            cur.lines.append((t, parts[1:]))
-        else:
-            cur.lines.append((t, [int(x) for x in parts[1:]]))
-    return header, ops, trailer, stray
+    """returns (header, ops, trailer, stray_violations), everything in memory (small logs, tools)"""
+    st = Stream(path_or_lines); ops = list(st.ops())
+    return st.header, ops, st.trailer, st.stray
